@@ -14,6 +14,9 @@ type regDR struct {
 	FSK    int           `json:"fsk"`
 	LRFHSS []interface{} `json:"lrfhss"`
 	Dir    string        `json:"dir"`
+	// IfDefined: the data-rate exists only in some revisions of the Regional Parameters, with the same definition in
+	// all that have it: the band may omit it; a band that defines it must define it like this
+	IfDefined bool `json:"if_defined"`
 }
 
 type regAffine struct {
